@@ -1168,6 +1168,41 @@ func fdsDirect(seed uint64, tier string, args []string, w *bufio.Writer) {
 			}
 		})
 	}
+	// 5a. an adapter whose net.Conn was closed through its owner first (what websocket's CloseNextLayer or the application
+	// does): the adapter's own Close comes later, when the number belongs to somebody else
+	d.trial("foreign-close.adapter-owner-first", "net.Conn.Close; pipe; adapter.Close x2", func() {
+		before := fdsCensus()
+		o, err := fdsCreate(ioc, "adapter")
+		if err != nil {
+			return
+		}
+		mine := fdsNew(before, fdsCensus())
+		p := fdsAccept(2 * time.Second)
+		for _, x := range o.keep {
+			if nc, ok := x.(net.Conn); ok {
+				_ = nc.Close()
+			}
+		}
+		var pipes [][2]int
+		for i := 0; i < len(mine); i++ {
+			var pp [2]int
+			if syscall.Pipe2(pp[:], syscall.O_CLOEXEC) == nil {
+				pipes = append(pipes, pp)
+			}
+		}
+		_ = o.close()
+		_ = o.close()
+		for _, pp := range pipes {
+			if !fdsAlive(pp[0]) || !fdsAlive(pp[1]) {
+				d.fail("foreign-close.adapter", "a pipe created after the wrapped net.Conn was closed (descriptors %d,%d; the adapter had %v) was closed by the adapter's Close", pp[0], pp[1], mine)
+			}
+			syscall.Close(pp[0])
+			syscall.Close(pp[1])
+		}
+		if p != nil {
+			p.Close()
+		}
+	})
 	// Close after the IO context was closed first, with operations in flight (epoll_ctl fails with EBADF)
 	for _, variant := range []string{"write", "read", "both"} {
 		variant := variant
@@ -1323,6 +1358,16 @@ func fdsDirect(seed uint64, tier string, args []string, w *bufio.Writer) {
 		xkind := xkind
 		d.trial("gc.stale-close."+xkind, "Close "+xkind+" X; Y gets X's descriptor number and defers a read; X.Close() again", func() {
 			fdsStaleCloseTrial(d, ioc, xkind)
+		})
+	}
+
+	// 6a'. "reconnect on completion": the callback of a deferred read (write) closes its connection and dials a new one, which
+	// gets the same descriptor number and defers a read; whatever the old object still does after its callback returned
+	// must leave the new object's registration alone
+	for _, dir := range []string{"read", "write"} {
+		dir := dir
+		d.trial("gc.reconnect-in-"+dir+"-callback", "the "+dir+" callback closes its conn and dials a new one (same number) with a deferred read; drop references, collect, complete", func() {
+			fdsReconnectTrial(d, ioc, dir)
 		})
 	}
 
@@ -1657,6 +1702,85 @@ func fdsGcTimerTrial(d *fdsDirectState, ioc *sonic.IO, variant string) bool {
 		d.fail("gc.completion-lost", "timer (%s): the schedule never fired after the references were dropped and the collector ran", variant)
 	}
 	return true
+}
+
+func fdsReconnectTrial(d *fdsDirectState, ioc *sonic.IO, dir string) {
+	completed, finalized, sameNumber := false, false, false
+	fdB := -1
+	var peerA, peerB net.Conn
+	func() {
+		a, err := sonic.Dial(ioc, "tcp", fdsLn.Addr().String())
+		if err != nil {
+			return
+		}
+		peerA = fdsAccept(2 * time.Second)
+		if peerA == nil {
+			a.Close()
+			return
+		}
+		fdA := a.RawFd()
+		reconnect := func(error, int) {
+			_ = a.Close()
+			b, err := sonic.Dial(ioc, "tcp", fdsLn.Addr().String())
+			if err != nil {
+				return
+			}
+			peerB = fdsAccept(2 * time.Second)
+			fdB = b.RawFd()
+			sameNumber = fdB == fdA
+			sent := &fdsSentinel{}
+			runtime.SetFinalizer(sent, func(*fdsSentinel) { finalized = true })
+			buf := make([]byte, 4)
+			b.AsyncReadAll(buf, func(err error, n int) { // deferred: the new peer has not written yet
+				sent.n++
+				completed = err == nil && string(buf) == "pong"
+				_ = b.Close()
+			})
+		}
+		ioc.Dispatched = sonic.MaxCallbackDispatch // force deferral of the first operation
+		if dir == "read" {
+			a.AsyncReadAll(make([]byte, 4), reconnect)
+		} else {
+			a.AsyncWriteAll([]byte("ping"), reconnect)
+		}
+		ioc.Dispatched = 0
+	}()
+	if peerA == nil {
+		return
+	}
+	defer peerA.Close()
+	if dir == "read" {
+		_, _ = peerA.Write([]byte("ping"))
+	}
+	for i := 0; i < 50 && fdB < 0; i++ {
+		_ = ioc.RunOneFor(10 * time.Millisecond)
+	}
+	if fdB < 0 || peerB == nil {
+		d.fail("gc.reconnect", "%s: the first operation never completed / the reconnect failed", dir)
+		return
+	}
+	defer peerB.Close()
+	if sameNumber {
+		d.counts["reconnect-same-number"]++
+	}
+	if !ioc.VerifRegistered(fdB) {
+		d.fail("gc.unregistered-in-flight", "reconnect in the %s callback: the new connection (descriptor %d, same number as the closed one: %v) has a read in flight but the IO registry does not hold its slot", dir, fdB, sameNumber)
+	}
+	for i := 0; i < 3; i++ {
+		runtime.GC()
+		time.Sleep(time.Millisecond)
+	}
+	if finalized {
+		d.fail("gc.collected-in-flight", "reconnect in the %s callback: the new connection was finalised while its read was in flight", dir)
+		return
+	}
+	_, _ = peerB.Write([]byte("pong"))
+	for i := 0; i < 50 && !completed; i++ {
+		_ = ioc.RunOneFor(10 * time.Millisecond)
+	}
+	if !completed {
+		d.fail("gc.completion-lost", "reconnect in the %s callback: the read of the new connection never completed", dir)
+	}
 }
 
 func fdsGcTrial(d *fdsDirectState, ioc *sonic.IO, kind string, r *rng) {
